@@ -218,6 +218,143 @@ def abandoned_attachment_probe(binary=False):
         shutil.rmtree(tmp, ignore_errors=True)
 
 
+def run_block_ops(ops):
+    """Drives the real Session.prepare_attachment with a sequence of ["reserve"|"commit"|"abandon", thread label] operations (the
+    context managers are entered and left by hand, innermost block of the label first).  Returns (numbers handed out in
+    order, numbers referenced by the fired events in order, numbers still open)."""
+    import re
+    from lemoncheesecake.session import Session, _Cursor
+    from lemoncheesecake.events import SyncEventManager
+    from lemoncheesecake.reporting import Report, ReportLocation
+    tmp = tempfile.mkdtemp(prefix="lccverif_blocks_")
+    try:
+        em = SyncEventManager.load()
+        refs = []
+        em.subscribe_to_event("log_attachment", lambda e: refs.append(int(re.match(r"attachments/(\d+)_", e.attachment_path).group(1))))
+        session = Session(em, tmp, Report())
+        Session._instance = session
+        session.cursor = _Cursor(ReportLocation.in_test_session_setup())
+        session.set_step("step")
+        handed, open_blocks = [], []          # open_blocks: [label, number, context manager, path, content], innermost first
+        committed = []                        # (path, content) of the blocks that ended normally
+        for idx, (kind, t) in enumerate(ops):
+            if kind == "reserve":
+                cm = session.prepare_attachment("data.txt", "by %d" % t)
+                path = cm.__enter__()
+                n = int(re.match(r"(\d+)_", os.path.basename(path)).group(1))
+                handed.append(n)
+                open_blocks.insert(0, [t, n, cm, path, "content written by operation %d" % idx])
+                with open(path, "w") as fh:
+                    fh.write(open_blocks[0][4])
+                continue
+            k = next((i for i, b in enumerate(open_blocks) if b[0] == t), None)
+            if k is None:
+                continue
+            _, n, cm, path, content = open_blocks.pop(k)
+            if kind == "commit":
+                cm.__exit__(None, None, None)
+                committed.append((path, content))
+            else:
+                exc = ValueError("the content could not be produced")
+                try:
+                    cm.__exit__(ValueError, exc, None)
+                except ValueError:
+                    pass
+        CLOBBERED[:] = [os.path.basename(path) for path, content in committed
+                        if not os.path.exists(path) or open(path).read() != content]
+        return handed, refs, [b[1] for b in open_blocks]
+    finally:
+        Session._instance = None
+        shutil.rmtree(tmp, ignore_errors=True)
+
+
+CLOBBERED = []        # attachments of the last run_block_ops whose file is gone or holds what another block wrote
+
+
+def blocks_broken(handed, refs):
+    """The property on what the implementation did: no file referenced twice, only files that were handed out, every referenced
+    file still holds what its block wrote."""
+    return len(set(refs)) != len(refs) or not set(refs) <= set(handed) or bool(CLOBBERED)
+
+
+def gen_block_ops(rng):
+    ops, depth = [], {}
+    for _ in range(rng.randint(1, 24)):
+        t = rng.randint(0, 3)
+        r = rng.random()
+        if r < 0.45 or not depth.get(t):
+            ops.append(["reserve", t])
+            depth[t] = depth.get(t, 0) + 1
+        else:
+            ops.append(["commit" if r < 0.8 else "abandon", t])
+            depth[t] -= 1
+        if rng.random() < 0.05:
+            ops.append([rng.choice(["commit", "abandon"]), rng.randint(0, 3)])      # possibly a thread without an open block
+            if depth.get(ops[-1][1]):
+                depth[ops[-1][1]] -= 1
+    return ops
+
+
+BLOCKS_HEADER = """From Coq Require Import List Arith Bool.
+Import ListNotations.
+From LCC Require Import Base.Util Model.Attach.
+Definition agrees (c : list aop * (list nat * list nat * list nat)) : bool :=
+  let s := brun (fst c) in
+  let '(handed, refs, opened) := snd c in
+  list_eqb Nat.eqb (b_all s) handed && list_eqb Nat.eqb (b_refs s) refs && list_eqb Nat.eqb (map snd (b_open s)) opened.
+"""
+
+
+def blocks_file(cases):
+    c_op = lambda o: "%s %d" % ({"reserve": "Reserve", "commit": "Commit", "abandon": "Abandon"}[o[0]], o[1])
+    nl = lambda l: "[%s]" % "; ".join(str(x) for x in l)
+    body = ";\n  ".join("([%s], (%s, %s, %s))" % ("; ".join(c_op(o) for o in ops), nl(h), nl(r), nl(o)) for ops, (h, r, o) in cases)
+    return BLOCKS_HEADER + "Definition cases : list (list aop * (list nat * list nat * list nat)) := [\n  %s\n].\n" % body + \
+        "Eval vm_compute in (find_indexes (fun c => negb (agrees c)) cases).\n"
+
+
+def attachment_blocks(run):
+    """Model/Attach.brun against the real prepare_attachment on random sequences of block operations, and the property itself on
+    what the implementation did (no number referenced twice, only numbers handed out)."""
+    import lib
+    cases = []
+    for i in range(150 if run.tier == "quick" else 5000):
+        ops = gen_block_ops(run.rng)
+        try:
+            got = run_block_ops(ops)
+        except Exception as e:      # noqa: BLE001
+            run.tie_broken("Attach.brun = numbers handed out / referenced by prepare_attachment", case=ops, detail="%s: %s" % (type(e).__name__, e))
+            continue
+        run.evaluations += 1
+        run.count("attachment_block_sequences")
+        run.count("attachment_blocks_abandoned", sum(1 for o in ops if o[0] == "abandon"))
+        handed, refs, _ = got
+        if any(o[0] == "abandon" for o in ops) and len(refs) >= 2:
+            run.nontrivial.add("blocks:" + json.dumps(ops))
+        if blocks_broken(handed, refs):
+            small = list(ops)
+            changed = True
+            while changed:
+                changed = False
+                for k in range(len(small)):
+                    cand = small[:k] + small[k + 1:]
+                    h2, r2, _ = run_block_ops(cand)
+                    if blocks_broken(h2, r2):
+                        small, changed = cand, True
+                        break
+            h2, r2, _ = run_block_ops(small)
+            run.violation("attachment-number-used-twice", "numbers handed out %s, referenced by the report %s, files lost or overwritten %s: one attachment file for two attachments" % (h2, r2, list(CLOBBERED)),
+                          {"probe": "attachment_blocks", "ops": small, "handed": h2, "referenced": r2, "lost_or_overwritten": list(CLOBBERED)})
+        cases.append((ops, got))
+    if getattr(run, "model_ok", False) and cases:
+        rc, out = run.coq_eval("blocks", blocks_file(cases))
+        bad = lib.parse_nat_list(out) if rc == 0 else None
+        if bad is None:
+            run.tie_broken("attachment blocks case file did not evaluate", detail=out[-1500:])
+        for idx in (bad or [])[:2]:
+            run.tie_broken("Attach.brun = numbers handed out / referenced by prepare_attachment", case=cases[idx][0], impl=list(cases[idx][1]))
+
+
 def attached_file_probe(image=False):
     """save_attachment_file / save_image_file of a scratch file that its owner rewrites IN PLACE afterwards (two tests dumping into
     the same scratch file): the attachment the report references keeps what was attached.  Returns (ok, detail)."""
@@ -348,6 +485,7 @@ def check(run):
             run.tie_broken("the attached-file probe could be run", detail=str(detail))
         elif not ok:
             run.violation("attachment-content-changes-with-its-source", str(detail), {"probe": "attached_file_probe", "image": image})
+    attachment_blocks(run)
     for binary in (False, True):
         run.evaluations += 1
         run.count("abandoned_attachment_probes")
@@ -395,6 +533,10 @@ _case_replay = propcommon.make_replay(runoracle.c06_oracle)
 
 def replay(path):
     rp = json.load(open(path)).get("replay") or {}
+    if rp.get("probe") == "attachment_blocks":
+        h, r, o = run_block_ops(rp["ops"])
+        print(json.dumps({"ops": rp["ops"], "handed": h, "referenced": r, "open": o}))
+        return 1 if blocks_broken(h, r) else 0
     probes = {"abandoned_attachment_probe": lambda: abandoned_attachment_probe(rp.get("image", False)),
               "attached_file_probe": lambda: attached_file_probe(rp.get("image", False)),
               "write_window_probe": lambda: write_window_probe(rp.get("binary", False)),
